@@ -191,7 +191,8 @@ def MatrixLog3(R):   # pragma: no cover
                              + (R[1][0] - R[0][1]) ** 2)
     if acosinput >= 1 or (acosinput > 0 and sininput == 0):
         return np.zeros((3, 3))
-    elif acosinput <= -1 or (acosinput < 0 and sininput < 1e-9):
+    elif acosinput < 0 and sininput == 0:
+        # exactly a half turn (R symmetric)
         if not NearZero(1 + R[2][2]):
             omg = ((1.0 / np.sqrt(2 * (1 + R[2][2])))
                   * np.array([R[0][2], R[1][2], 1 + R[2][2]]))
@@ -203,9 +204,11 @@ def MatrixLog3(R):   # pragma: no cover
                   * np.array([1 + R[0][0], R[1][0], R[2][0]]))
         return VecToso3(np.pi * omg)
     elif acosinput < 0 and sininput < 1e-4:
-        # close to a half turn the skew part, sin(theta) [n], is tiny and dividing by
-        # sin(theta) amplifies the rounding of R (1e-14 / 1e-9 = 1e-5 in the axis):
-        # take the axis from the symmetric part (1 - cos(theta)) n n^T instead and
+        # close to a half turn the skew part, sin(theta) [n], is tiny: dividing by
+        # sin(theta) amplifies the rounding of R (1e-14 / 1e-9 = 1e-5 in the axis), and
+        # the half-turn formulas above mix it into a column they divide by a component
+        # of the axis (1e-8 / 1e-3 = 1e-5 again).  Take the axis from the symmetric
+        # part (1 - cos(theta)) n n^T, pivoting on its largest diagonal entry, and
         # only its sign from the skew part
         theta = np.arctan2(sininput, acosinput)
         A = 0.5 * (R + (R).T) - acosinput * np.eye(3)
